@@ -199,6 +199,10 @@ def generate(tier, rng):
     for first in ([":plain 1"], [scr(0, [])], [scr(1, [":k 9 0"])], [":plain 1", scr(1, [":s 13", ":x 3"])]):
         for a in (0, 1):
             out.append(scen(a, first + [real(), ":plain 0", real(body=[":f"]), real(td=[":r 11"]), real()]))
+    # many failed checks in one child (plugin actions do not leave their phase): the verdict is a flag, not a count
+    for k in (255, 256, 257, 512):
+        out.append(scen(0, [real(pre=[":f"] * k), real()]))
+        out.append(scen(0, [":plain 1", real(post=[":f"] * k, body=[":r 13"]), real()]))
     out.append(scen(0, [real(inj=[":er"]), real()]))
     out.append(scen(0, [real(body=[":r 13"], inj=[":re", ":er"]), real()]))
     # (c) sequences
